@@ -362,6 +362,30 @@ fn query_cursor_load(b: &zoo::Built, lang_id: &str, seed: u64, info: &mut String
         if cnt <= 24 {
             pats.push((format!("({p} ({k}) @a ({k}) @b ({k}) @c)"), if clean { Some((triples, 3)) } else { None }));
         }
+        // more captures on ONE node than a query step can hold (MAX_STEP_CAPTURE_COUNT = 3): the surplus is
+        // dropped, the pattern still matches every (P, K-child) pair and every match carries 3 captures
+        let singles: usize = per_parent.iter().filter(|(pk, _)| *pk == p).map(|(_, m)| *m.get(&k).unwrap_or(&0)).sum();
+        pats.push((format!("({p} ({k}) @a @b @c @d)"), if clean { Some((singles, 3)) } else { None }));
+        pats.push((format!("({p} ({k}) @a @b @c @d @e ({k}) @f)"), if clean { Some((pairs, 4)) } else { None }));
+        // ONE cursor reused across executions, the match limit lowered after an execution that needed many
+        // capture lists (capture_list_pool_reset must free the lists beyond the new limit), then raised again
+        {
+            let mut qc = QueryCursor::new();
+            let srcs = [format!("({p} ({k}) @a ({k}) @b)"), format!("({p} ({k})* @a ({k}) @b)"), "(_ (_) @a (_) @b)".to_string()];
+            let limits = [u32::MAX, [1u32, 2, 5, 8][rng.below(4)], u32::MAX, [3u32, 7, 9, 16][rng.below(4)], 1];
+            for (li, lim) in limits.iter().enumerate() {
+                let Ok(q) = Query::new(lang, &srcs[li % srcs.len()]) else { continue };
+                qc.set_match_limit(*lim);
+                let mut it = qc.matches(&q, tree.root_node(), text.as_slice());
+                let mut got = 0usize;
+                while let Some(_m) = it.next() {
+                    got += 1;
+                    if got > 200_000 {
+                        break;
+                    }
+                }
+            }
+        }
         for (src, expect) in pats {
             let Ok(q) = Query::new(lang, &src) else { continue };
             for mode in 0..3 {
